@@ -9,8 +9,11 @@ import (
 
 	"github.com/vapourismo/knx-go/knx"
 	"github.com/vapourismo/knx-go/knx/cemi"
+	"github.com/vapourismo/knx-go/knx/dpt"
 	"github.com/vapourismo/knx-go/knx/knxnet"
+	"github.com/vapourismo/knx-go/knx/util"
 	"github.com/vapourismo/knx-go/verifmc/mc"
+	"verifh/enum/statelib"
 	"verifh/harness/fakesock"
 	"verifh/harness/h"
 )
@@ -67,6 +70,21 @@ func MsgID(m interface{}) int {
 
 func init() {
 	fakesock.PayloadID = func(m interface{}) string { return fmt.Sprint(MsgID(m)) }
+}
+
+// Every execution starts from the state the library's packages were initialised to: the package-level
+// variables of knx, knxnet, cemi, dpt and util (addresses from the generated VerifGlobals files)
+// are saved once and restored in place before each run. On the pinned tree nothing changes them;
+// a change under check that keeps state in package scope would otherwise make an execution depend
+// on the executions the same worker ran before it (and a replay in a fresh process differ).
+func init() {
+	var roots []interface{}
+	for _, f := range []func() ([]string, []interface{}){knx.VerifGlobals, knxnet.VerifGlobals, cemi.VerifGlobals, dpt.VerifGlobals, util.VerifGlobals} {
+		_, r := f()
+		roots = append(roots, r...)
+	}
+	snap := statelib.Take(roots)
+	mc.PreRun = snap.Restore
 }
 
 // Rx is logged by consumers for every telegram read from Inbound.
